@@ -158,12 +158,20 @@ def lean_side(pid, tier):
 
 # ----------------------------------------------------------------------------- scenarios
 
-def load_corpus():
+def load_corpus(pid=None):
+    """corpus/*.scn: minimised past failures, run first for every property; findings/<pid>-*.scn: the
+    inputs of the recorded (not repaired) findings of that property (known_findings.json)."""
     scns = []
     for path in sorted(glob.glob(os.path.join(VERIF, "corpus", "*.scn"))):
         for s in lib.parse_scn_text(open(path).read()):
             s.sid = "corpus:" + s.sid
             scns.append(s)
+    if pid:
+        for path in sorted(glob.glob(os.path.join(VERIF, "findings", pid + "-*.scn"))):
+            for s in lib.parse_scn_text(open(path).read()):
+                s.sid = "finding:" + s.sid
+                s.no_minimise = True
+                scns.append(s)
     return scns
 
 
@@ -234,7 +242,8 @@ def evaluate(pid, scns, bins, driver_ok):
             stats["oracle_applicable"] += 1
             if r:
                 viol.append((s, r))
-        if driver_ok:
+        if driver_ok and not s.sid.startswith("finding:"):
+            # (a recorded finding lies outside the model's domain: both sides complain, traces behind the fault are not compared)
             m = tm.get(s.sid)
             if m is None or m.errs:
                 dis.append((s, "model produced no trace: %s" % (m.errs if m else "")))
@@ -346,7 +355,7 @@ def main():
         scns = lib.parse_scn_text(open(replay).read())
         budget = []
     else:
-        scns = load_corpus()
+        scns = load_corpus(pid)
         for fam, nq, nt in families.PLAN[pid]:
             n = nq * int(os.environ.get("VERIF_QUICK_SCALE", "3")) if tier == "quick" else nt
             scns += families.generate(seed, fam, n, prefix="%s-%s" % (pid, fam))
@@ -469,6 +478,7 @@ def main():
             "metamorphic_cases": len(meta) if meta else families.META_COUNT.get(pid, 0),
             "samples": [sample_of(s) for s in scns[:2] + scns[-2:]],
             "lean_problems": ls["problems"],
+            "recorded_findings_reproduced": len(viol) - len(fresh),
         },
         "assumptions": families.ASSUMPTIONS.get(pid, []) + ["domain restrictions of DESIGN.md 2.3 (supported descriptors, handler contract, no HOLD from event handlers, flags change between lines)"],
         "wall_s": round(wall, 2),
@@ -481,8 +491,9 @@ def main():
         lib.write_json(os.path.join(VERIF, "evidence", "%s.json" % pid), ev)
     for l in out_lines:
         print(l)
-    print("%s %s: %d scenarios, %d theorems (%d checked), %d oracle failures, %d correspondence disagreements, %.1fs -> %s" % (
-        pid, tier, len(scns), len(ls["thms"]), len(ls["discharged"]), len(viol), len(dis), wall, "FAIL" if exit_code else "ok"))
+    print("%s %s: %d scenarios, %d theorems (%d checked), %d oracle failures%s, %d correspondence disagreements, %.1fs -> %s" % (
+        pid, tier, len(scns), len(ls["thms"]), len(ls["discharged"]), len(fresh),
+        (" (+%d recorded findings reproduced)" % (len(viol) - len(fresh))) if len(viol) != len(fresh) else "", len(dis), wall, "FAIL" if exit_code else "ok"))
     sys.exit(exit_code)
 
 
